@@ -66,10 +66,10 @@ class ReaderHarness(Harness):
         if axi: self.r_size = c.rd(port.cmd.size); self.r_len = c.rd(port.cmd.len)
 
     def env0(self):
-        return (None, (), self.resp.init())        # (pending producer item, expected (addr,last) queue, responder)
+        return (None, (), (), self.resp.init())        # (pending producer item, addresses accepted and not yet issued, issued (addr,last) awaiting data, responder)
 
     def menu(self, S, E):
-        pend, exp, rs = E
+        pend, aq, exp, rs = E
         prod = (None,) if pend is not None else self.alpha
         return [(p, cr, r) for p in prod for cr in (1, 0) for r in self.resp.menu(rs)]
 
@@ -78,7 +78,7 @@ class ReaderHarness(Harness):
         return "%s | consumer.ready=%d | cmd.ready=%d serve=%s" % ("-" if p is None else "addr %d last %d" % p, cr, rb, list(serve))
 
     def drive(self, S, E, ch):
-        pend, exp, rs = E
+        pend, aq, exp, rs = E
         p, cr, rch = ch
         I = list(self.base)
         item = pend if pend is not None else p
@@ -89,21 +89,21 @@ class ReaderHarness(Harness):
         return tuple(I)
 
     def observe(self, S, E, ch, I, O, S2):
-        pend, exp, rs = E
+        pend, aq, exp, rs = E
         p, cr, rch = ch
         item = pend if pend is not None else p
         rs2, evs = self.resp.observe(rs, rch, S, I, O)
         prog = bool(evs)
         acc = [e for e in evs if e[0] == "acc"]
         taken = item is not None and self.r_sready(S, I, O)
+        if taken:
+            aq = aq + (item,); item = None; prog = True      # accepted from the sink; its read command may go out now or later (a core may buffer addresses)
         if acc:
-            if not taken: raise Violation("dma.read_without_address", "a read command was issued although no address was accepted from the sink")
-            if acc[0][3] != item[0] or acc[0][2]: raise Violation("dma.read_wrong_address", "read command address %d (we=%d), sink address %d" % (acc[0][3], acc[0][2], item[0]))
+            if not aq: raise Violation("dma.read_without_address", "a read command was issued although no address accepted from the sink is waiting for one")
+            if acc[0][3] != aq[0][0] or acc[0][2]: raise Violation("dma.read_wrong_address", "read command address %d (we=%d), next accepted sink address %d" % (acc[0][3], acc[0][2], aq[0][0]))
             if self.axi and (self.r_size(S, I, O) != (self.dw // 8).bit_length() - 1 or self.r_len(S, I, O) != 0):
                 self.report("dma.axi_burst_shape", "AR beat with size=%d len=%d: one full-width beat expected" % (self.r_size(S, I, O), self.r_len(S, I, O)))
-        if taken:
-            if not acc: raise Violation("dma.address_dropped", "an address was accepted from the sink but no read command was issued for it")
-            exp = exp + (item,); item = None; prog = True
+            exp = exp + (aq[0],); aq = aq[1:]
         if cr and self.r_valid(S, I, O):
             if not exp: raise Violation("dma.word_without_address", "a data word was emitted although no read is outstanding")
             a, l = exp[0]; exp = exp[1:]; prog = True
@@ -116,9 +116,9 @@ class ReaderHarness(Harness):
             self.report("dma.reader_overrun", "%d reads accepted and not yet delivered, the data FIFO holds %d words (fifo_depth %d%s)" % (len(exp), self.capacity, self.depth, ", buffered" if self.capacity > self.depth else ""))
         ev = 0
         coop = cr == 1 and rch == self.resp.default_choice(rs)
-        if coop and (pend is not None or exp or rs[0]): ev |= EV_OUT
+        if coop and (pend is not None or aq or exp or rs[0]): ev |= EV_OUT
         if prog: ev |= EV_PROG
-        return (item, exp, rs2), ev
+        return (item, aq, exp, rs2), ev
 
     def coverage(self): return dict(self.cov)
 
@@ -192,11 +192,6 @@ class WriterHarness(Harness):
                 if e[2] != ea or e[3] != self.word(es) or e[4] != (1 << (self.dw // 8)) - 1:
                     self.report("dma.writer_data", "memory[%d] <- %x (we=%x), expected memory[%d] <- %x with all bytes enabled" % (e[2], e[3], e[4], ea, self.word(es)))
                 self.cov["words"] = self.cov.get("words", 0) + 1
-        if self.axi and not self.r_bready(S, I, O):
-            self.report("dma.axi_b_not_taken", "B channel not ready: write responses would pile up in the slave")
-        if len(ecmd) > 1:
-            # command and FIFO push happen in the same cycle by design: a pair accepted from the sink must be at the memory port at once
-            self.report("dma.writer_pair_split", "pair accepted from the sink without its write command being accepted")
         ev = 0
         coop = rch == self.resp.default_choice(rs)
         if coop and (pend is not None or ecmd or edat or rs[0]): ev |= EV_OUT
